@@ -98,3 +98,8 @@ Proof.
   exists (fst (pc_write c)), c'. split; [apply tr_write_is_pc_write|].
   split; [|auto]. rewrite tr_read_is_pc_read by (rewrite R; discriminate). rewrite R, Ec. reflexivity.
 Qed.
+
+(* without the fuel hypothesis: fuel at least the input length is always enough *)
+Lemma tr_read_total fuel used s : (List.length s <= fuel)%nat ->
+  tr_read fuel used s = Some (run_flat (pc_read fuel used) s).
+Proof. intros H. apply tr_read_is_pc_read. apply pc_read_no_fuel. exact H. Qed.
